@@ -32,6 +32,91 @@ EXPLANATION = (
     "Does not decide NumPy results, broadcasting or the exponent arithmetic of prod.")
 
 
+
+def inplace_primitives_rule(ck, ix):
+    """Who may call the in-place conversion primitives.  `X._convert_magnitude(...)` rescales an ndarray magnitude in
+    place and `X.ito*(...)` rebinds magnitude and units of X: both may only be applied to the target of an operation
+    whose contract is in-place (ito*, __i<op>__, _iadd_sub, _imul_div) or to the freshly computed result inside the
+    ireduce_dimensions wrapper.  Everything else (comparisons, hashing, formatting, to_*, functional operators, NumPy
+    implementations) must leave its operands untouched."""
+    n = 0
+    for f in ix.all_functions():
+        if not isinstance(f.node, (ast.FunctionDef, ast.AsyncFunctionDef)) or not f.module.name.startswith("pint.") or ".testsuite" in f.module.name:
+            continue
+        for c in walk_local(f.node):
+            if not (isinstance(c, ast.Call) and isinstance(c.func, ast.Attribute)):
+                continue
+            a = c.func.attr
+            if not (a == "_convert_magnitude" or a.startswith("ito")):
+                continue
+            if a.startswith("ito") and not a in ("ito", "ito_root_units", "ito_base_units", "ito_reduced_units", "ito_preferred"):
+                continue
+            recv = norm(c.func.value)
+            fam = f.name.startswith("ito") or f.name.startswith("__i") or f.name in ("_iadd_sub", "_imul_div")
+            params = [x.arg for x in f.node.args.args]
+            target = params[0] if params else "self"
+            n += 1
+            qn = f.qualname.split("::")[1]
+            if fam:
+                ck.check(recv == target, "G-OWN", f"in-place-primitive|{qn}|{norm(c)[:40]}", f.loc(c), f"in-place conversion of the target `{target}` of an in-place operation",
+                         f"`{norm(c)}` converts `{recv}` in place inside {qn}: only the target `{target}` of an in-place operation may be modified")
+            elif f.name == "wrapped" and recv == "result":
+                ck.ok("G-OWN", f"in-place-primitive|{qn}|{norm(c)[:40]}", f.loc(c), "the freshly computed result is reduced in place")
+            else:
+                ck.fail("G-OWN", f"in-place-primitive|{qn}|{norm(c)[:40]}", f.loc(c),
+                        f"`{norm(c)}` inside {qn}: this operation is not an in-place form, yet it rescales/rebinds `{recv}` in place (array magnitudes are modified while the units stay); use the non-in-place twin")
+    ck.floor("G-OWN", n, 6, "call sites of in-place conversion primitives")
+
+
+def stale_alias_rule(ck, ix, modules=("pint.facets.numpy.numpy_func", "pint.facets.numpy.quantity", "pint.facets.plain.quantity", "pint.facets.plain.qto")):
+    """A local alias of an operand's magnitude (`m = a._magnitude`) must not be used after the operand name is rebound
+    to a converted quantity (`a = a.to(...)`): the alias still holds the numbers in the old units while the unit that
+    is attached to the result comes from the new binding."""
+    MAG = ("_magnitude", "magnitude", "m")
+    n = 0
+    for mod in modules:
+        m = ix.module(mod)
+        for f in m.all_functions:
+            if not isinstance(f.node, (ast.FunctionDef, ast.AsyncFunctionDef)):
+                continue
+            aliases = []
+            for a in walk_local(f.node):
+                if isinstance(a, ast.Assign) and len(a.targets) == 1 and isinstance(a.targets[0], ast.Name) and isinstance(a.value, ast.Attribute) \
+                        and a.value.attr in MAG and isinstance(a.value.value, ast.Name) and a.value.value.id not in ("self", "cls"):
+                    aliases.append((a.targets[0].id, a.value.value.id, a))
+            if not aliases:
+                continue
+            cfg = cfg_of(f)
+            for (al, src, adef) in aliases:
+                n += 1
+                rebinds = [x for x in walk_local(f.node) if isinstance(x, (ast.Assign, ast.AugAssign, ast.AnnAssign)) and x is not adef
+                           and any(isinstance(t, ast.Name) and t.id == src for t in (x.targets if isinstance(x, ast.Assign) else [x.target]))]
+                redefs = [x for x in walk_local(f.node) if isinstance(x, ast.Assign) and x is not adef and any(isinstance(t, ast.Name) and t.id == al for t in x.targets)]
+                uses = [x for x in walk_local(f.node) if isinstance(x, ast.Name) and x.id == al and isinstance(x.ctx, ast.Load)]
+                dn = cfg.nodes_for_ast(adef)
+                rdn = [i for r in redefs for i in cfg.nodes_for_ast(r)]
+                bad = None
+                for r in rebinds:
+                    rn = cfg.nodes_for_ast(r)
+                    if not rn or not dn:
+                        continue
+                    if not cfg.path(dn[0], rn, avoid=rdn):
+                        continue
+                    for u in uses:
+                        st = u
+                        while st is not None and not cfg.nodes_for_ast(st):
+                            st = getattr(st, "_parent", None)
+                        un = cfg.nodes_for_ast(st) if st is not None else []
+                        if un and any(cfg.path(x, un, avoid=rdn) or x in un for x in rn) and not all(x in rn for x in un):
+                            bad = (r, u)
+                            break
+                    if bad:
+                        break
+                qn = f.qualname.split("::")[1]
+                ck.check(bad is None, "G-TAG", f"stale-magnitude-alias|{qn}|{al}={src}.{adef.value.attr}", f.loc(bad[1]) if bad else f.loc(adef), f"`{al}` is not used after `{src}` is rebound",
+                         f"`{al} = {src}.{adef.value.attr}` is used at line {bad[1].lineno if bad else 0} after `{norm(bad[0]) if bad else ''}` rebinds `{src}`: the numbers are still in the old units while units are taken from the converted `{src}`")
+    ck.note(f"stale-alias scan: {n} magnitude aliases")
+
 def run(ck, ix, tier):
     ck.rule("G-TABLE", "extracted behaviour table agrees with the independent dimensional-semantics spec")
     m = ix.module(NF)
@@ -259,4 +344,6 @@ def run(ck, ix, tier):
     src = norm(f.node)
     ck.check("return arg.m_as(pre_calc_units)" in src and "raise DimensionalityError('dimensionless', pre_calc_units)" in src and "zero_or_nan(arg, True)" in src, "G-TAG", "convert_arg|quantities-converted-bare-numbers-rejected", f.loc(),
              "quantities are converted; bare non-zero numbers are rejected for dimensional targets", "convert_arg no longer converts quantities / rejects bare numbers for dimensional targets")
+    inplace_primitives_rule(ck, ix)
+    stale_alias_rule(ck, ix)
     return EXPLANATION
